@@ -847,6 +847,20 @@ theorem tx_repay_ran {w w' : WState} {tx : List TOp} (h : w.runTx tx = some w')
     · cases hst
   · cases hst
 
+/-- … and a bankruptcy settlement -/
+theorem tx_bankruptcy_ran {w w' : WState} {tx : List TOp} (h : w.runTx tx = some w')
+    {i ai bi signer : Nat} {available : Int} (hi : tx[i]? = some (.ix (.bankruptcy ai bi signer available))) :
+    ∃ (wi : WState) (a : AcctV) (b : WBank) (o : BkrOut), wi.accts[ai]? = some a ∧ wi.banks[bi]? = some b ∧
+      bankruptcy (wi.ctx a b signer b.v.liquidityVault 0) available = .ok o := by
+  obtain ⟨wi, wi', hst⟩ := runFrom_reached tx tx 0 w w' rfl h i _ (Nat.zero_le _) hi
+  simp only [WState.stepIn, WState.step?] at hst
+  split at hst
+  · rename_i a b ha hb
+    split at hst
+    · rename_i o ho; exact ⟨wi, a, b, o, ha, hb, ho⟩
+    · cases hst
+  · cases hst
+
 /-- **a borrow inside a committed transaction is backed by an initial-margin check**: either the borrow's own (the account was
     not in a flash loan: the check ran on the state the borrow left), or the one of the account's end_flashloan further down
     the same transaction (which ran on the state the whole bracket left) -/
